@@ -12,7 +12,11 @@ TInit == tid \in 1..Len(Traces) /\ l = 1 /\ Init /\ TLCSet(tid, 1)
 TSign == /\ l <= Len(Tr) /\ Tr[l].a = "Sign" /\ l' = l + 1 /\ UNCHANGED tid
          /\ Sign(Tr[l].kind)
          /\ (Tr[l].own <=> pks'[Len(pks')].over = <<Len(pks')>>)
-TSpec == TInit /\ [][TSign]_tvars
+\* [a |-> "Recheck", same]: every packet signed so far - the returned buffer and the SignaturePtrs of its parse,
+\* both kept alive - still reads as it did and still verifies
+TRecheck == /\ l <= Len(Tr) /\ Tr[l].a = "Recheck" /\ l' = l + 1 /\ UNCHANGED <<tid, vars>>
+            /\ \A i \in 1..Len(Tr[l].same) : Tr[l].same[i]
+TSpec == TInit /\ [][TSign \/ TRecheck]_tvars
 Mark == TLCSet(tid, Max2(TLCGet(tid), l))
 Post == \A i \in 1..Len(Traces) : TLCGet(i) = Len(Traces[i].ev) + 1 \/ PrintT(<<"REJECTED", i, TLCGet(i)>>)
 =============================================================================
